@@ -399,7 +399,7 @@ func c18History(c *vc.Ctx, idx int) {
 		}
 	}
 	if imports == 0 {
-		c.Inconclusive("no state was exported")
+		c.Count("histories_without_an_export", 1) // judged over the whole run (checkconf.json: require_observed)
 	}
 	c.Sample(map[string]any{"source_blocks": lh.ch.Height, "imports": imports, "final_state_traits": stateTraits(lh.post), "last_ops": lastN(lh.opsLog, 3)})
 }
